@@ -10,6 +10,7 @@ EXTENDS Layout, Kinds, Json
 
 CONSTANTS Kind,         \* the model kind the logical shapes are declared in (Kinds.tla): "dataclass" stands for every total kind
           Slice,        \* "A" map x style x trim | "B" skip x only x None | "C" extra policies | "D" lists | "E" omit_default | "F" stacking
+                        \* "G" output-only fields (in the middle / at the end of the definition order) x as_list x map x skip x omit x forbid
           MaxOverlays,
           EmitCases
 
@@ -19,12 +20,17 @@ IdB == Id(<<"b">>, 1, 0)          \* b_  (trailing underscore)
 IdC == Id(<<"c", "d">>, 0, 0)     \* c_d (two words, visible to name styles)
 IdR == Id(<<"rest">>, 0, 0)
 IdP == Id(<<"p">>, 0, 1)          \* _p  (private)
-Fld(id, req, ty) == FieldOf(Kind, [id |-> id, req |-> req, ty |-> ty])
+FldD(id, req, ty, dir) == FieldOf(Kind, [id |-> id, req |-> req, ty |-> ty, dir |-> dir])
+Fld(id, req, ty) == FldD(id, req, ty, "io")
 
 Shapes3 == {<<Fld(IdA, TRUE, "int"), Fld(IdB, r2, "str"), Fld(IdC, r3, "int")>> : r2 \in BOOLEAN, r3 \in BOOLEAN}
 Shapes4 == {<<Fld(IdA, TRUE, "int"), Fld(IdB, r2, "str"), Fld(IdC, FALSE, "int"), Fld(IdR, TRUE, "any")>> : r2 \in BOOLEAN}
 ShapesP == {<<Fld(IdA, TRUE, "int"), Fld(IdB, FALSE, "str"), Fld(IdP, r3, "int")>> : r3 \in BOOLEAN}
+\* an output-only field b_ between two constructor parameters, and after them
+ShapesG == {<<Fld(IdA, TRUE, "int"), FldD(IdB, FALSE, "str", "out"), Fld(IdC, r3, "int")>> : r3 \in BOOLEAN}
+           \cup {<<Fld(IdA, TRUE, "int"), Fld(IdC, r3, "int"), FldD(IdB, FALSE, "str", "out")>> : r3 \in BOOLEAN}
 Shapes == CASE Slice = "C" -> Shapes4
+            [] Slice = "G" -> ShapesG
             [] Slice = "B" -> Shapes3 \cup ShapesP
             [] OTHER -> Shapes3
 Ids(sh) == {sh[i].id : i \in 1..Len(sh)}
@@ -77,6 +83,11 @@ Overlays(sh) ==
             m \in Opt({<<Entry({IdA}, PSpec(<<K1>>))>>, <<Entry({IdA}, PSpec(<<N, Ell>>))>>, <<Entry({IdA, IdC}, PSpec(<<N, Ell>>))>>, <<Entry({IdB}, PSpec(<<K1>>))>>}),
             s \in Opt({"upper"}), t \in Opt({FALSE}), sk \in Opt({SetSel({IdB})}), xi \in Opt({Xp("forbid", 0)})}
 
+    [] Slice = "G" ->
+         {[NoOv EXCEPT !.map = m, !.aslist = al, !.extra_in = xi, !.omit = om, !.skip = sk] :
+            m \in Opt(OneEntryMaps(ids, {PSpec(<<N, Ell>>), PSpec(<<K1>>)}) \cup {<<Entry({IdB}, NoneSpec)>>, <<Entry({IdA, IdB}, PSpec(<<N, Ell>>))>>}),
+            al \in Opt({TRUE}), xi \in Opt({Xp("forbid", 0)}), om \in Opt({AnySel}), sk \in Opt({SetSel({IdB})})}
+
 VARIABLES shape, ovs
 vars == <<shape, ovs>>
 Init == shape \in Shapes /\ ovs = <<>>
@@ -91,7 +102,10 @@ CreatedIn == ~Refused(Sch, shape, "in")
 CreatedOut == ~Refused(Sch, shape, "out")
 PsIn == Paths(Sch, shape, "in")
 PsOut == Paths(Sch, shape, "out")
-Optional == {i \in 1..Len(shape) : ~shape[i].req}
+Optional == {i \in 1..Len(shape) : ~shape[i].req /\ shape[i].dir = "io"}
+OutOnlyLive == {i \in Live(PsOut) : shape[i].dir = "out"}
+\* the two directions agree on every field both of them know
+SamePaths == \A i \in 1..Len(shape) : shape[i].dir = "io" => PsIn[i] = PsOut[i]
 LiveIn == Live(PsIn)
 Base(absent, bad) == DataFor(shape, PsIn, <<>>, absent, bad)
 InnerNodes == Prefixes(PathSet(PsIn)) \ {<<>>}
@@ -132,11 +146,12 @@ ProbeInputs ==
 Probes == {[d |-> d, out |-> LoadModel(Sch, shape, d)] : d \in ProbeInputs}
 
 \* objects to dump: every field set / every subset of optional fields at its default (absent, where the kind has no defaults)
-Objects == {[i \in 1..Len(shape) |-> IF i \in D THEN (IF shape[i].hasdfl THEN DflV(i) ELSE AbsentV) ELSE GoodV(i)] : D \in SUBSET Optional}
+Objects == {[i \in 1..Len(shape) |-> IF shape[i].dir = "out" THEN DerivedV(i)
+                                      ELSE IF i \in D THEN (IF shape[i].hasdfl THEN DflV(i) ELSE AbsentV) ELSE GoodV(i)] : D \in SUBSET Optional}
 \* ... each of them with one defaulted field holding a falsy value that is not the default ("equal to default" is not "falsy")
 FalsyObjects == {[o EXCEPT ![i] = FalsyV(i)] : o \in Objects, i \in {j \in Optional : shape[j].hasdfl}}
 \* ... and each of them with one typed field holding a value its dumper refuses
-BadObjects == {[o EXCEPT ![i] = BadV(i)] : o \in Objects, i \in {j \in 1..Len(shape) : shape[j].ty # "any"}}
+BadObjects == {[o EXCEPT ![i] = BadV(i)] : o \in Objects, i \in {j \in 1..Len(shape) : shape[j].ty # "any" /\ shape[j].dir = "io"}}
 Dumps == {[obj |-> o, fails |-> DumpFails(Sch, shape, o), out |-> DumpModel(Sch, shape, o)] : o \in Objects \cup FalsyObjects \cup BadObjects}
 
 (* ------------------------------ model-level properties -------------------------------- *)
@@ -145,18 +160,20 @@ OwnInputLoads == CreatedIn => LET r == LoadModel(Sch, shape, Base({}, {})) IN
                                 r.ok /\ \A i \in LiveIn : r.obj[i] = GoodV(i)
 \* loader and dumper use the same paths: loading what the dumper wrote gives the object back (nothing omitted)
 LoaderDumperAgree ==
-  (CreatedIn /\ CreatedOut /\ PsIn = PsOut /\ Sch.omit = SetSel({}) /\ (Sch.extra_out.p = "skip" \/ Sch.extra_in.p # "forbid")) =>
+  \* what an output-only field writes is unknown data for the loader: it must be allowed to ignore it
+  (CreatedIn /\ CreatedOut /\ SamePaths /\ (OutOnlyLive = {} \/ Sch.extra_in.p = "skip") /\ Sch.omit = SetSel({})
+     /\ (Sch.extra_out.p = "skip" \/ Sch.extra_in.p # "forbid")) =>
       \A o \in Objects \cup FalsyObjects : LET r == LoadModel(Sch, shape, DumpModel(Sch, shape, o)) IN
-                         r.ok /\ \A i \in LiveIn : r.obj[i] = o[i]
+                         r.ok /\ \A i \in 1..Len(shape) : (i \in LiveIn \/ shape[i].dir = "out") => r.obj[i] = o[i]
 \* with omit_default the omitted fields come back as their defaults
 OmitDefaultRoundTrip ==
-  (CreatedIn /\ CreatedOut /\ PsIn = PsOut /\ (Sch.extra_out.p = "skip" \/ Sch.extra_in.p # "forbid")) =>
+  (CreatedIn /\ CreatedOut /\ SamePaths /\ (OutOnlyLive = {} \/ Sch.extra_in.p = "skip") /\ (Sch.extra_out.p = "skip" \/ Sch.extra_in.p # "forbid")) =>
       \A o \in Objects \cup FalsyObjects : LET r == LoadModel(Sch, shape, DumpModel(Sch, shape, o)) IN
-                         r.ok => \A i \in LiveIn : r.obj[i] = o[i]
+                         r.ok => \A i \in 1..Len(shape) : (i \in LiveIn \/ shape[i].dir = "out") => r.obj[i] = o[i]
 \* C17 at model level: declaring the same logical model in another kind changes nothing but the absence of defaults -
 \* same paths, same loader verdict, same outcome for every probe up to AbsentV for DflV; a dumper refused for a total kind is
 \* refused for the TypedDict as well
-Logical == [i \in 1..Len(shape) |-> [id |-> shape[i].id, req |-> shape[i].req, ty |-> shape[i].ty]]
+Logical == [i \in 1..Len(shape) |-> [id |-> shape[i].id, req |-> shape[i].req, ty |-> shape[i].ty, dir |-> shape[i].dir]]
 Blur(o) == [i \in 1..Len(o) |-> IF o[i] \in {AbsentV, NoneV} THEN DflV(i) ELSE o[i]]
 KindsUniform ==
   \A k \in Kinds :
